@@ -293,6 +293,21 @@ def run_check(pid, tier, seed, replay=None):
     known = load_known()
     hits, new = classify(pid, failures, known)
     lines = []
+    # every open finding carries a deterministic witness: replay it on the real code so that the KNOWN-FINDING line does
+    # not depend on the seed, and so that a finding the code no longer exhibits is reported as stale
+    if crc == 0 and not replay:
+        for k in known:
+            if k.get("property") != pid or k.get("status", "open") != "open" or not k.get("replay"):
+                continue
+            rp = os.path.join(rundir, f"known_{k['id']}.json")
+            with open(rp, "w") as f:
+                json.dump({"property": pid, "witness": k["replay"]["witness"], "finding_key": k["replay"].get("key")}, f)
+            r = run_harness(k["replay"]["stream"], "quick", seed, os.path.join(rundir, "known_" + k["id"]), ["--replay", rp])
+            still = [key for key in r.get("failures", {}) if key == k["key"] or fnmatch.fnmatchcase(key, k["key"])]
+            if still:
+                hits.setdefault(k["id"], {"finding": k, "keys": []})["keys"].extend(still)
+            elif k["id"] not in hits:
+                lines.append(f"STALE-FINDING: property={pid} {k['id']}: its recorded witness no longer fails on the current tree")
     nrep = 0
     for fid, h in sorted(hits.items()):
         lines.append(f"KNOWN-FINDING: property={pid} {fid}: {h['finding']['what']}")
